@@ -187,7 +187,8 @@ def _integrate_over(expr: ast.AST, generators: Sequence[ast.comprehension]) -> a
             if isinstance(comprehension.iter, ast.Set):
                 values = set(values)
 
-            sym_expr = sum(sym_expr.subs(integrand, value) for value in values)
+            # The sum of no values is the int 0, which is not a sympy expression
+            sym_expr = sympy.sympify(sum(sym_expr.subs(integrand, value) for value in values))
 
         else:
             raise NotImplementedError(f"Cannot parse iterator: {comprehension.iter}")
